@@ -150,7 +150,7 @@ func driverMain(args []string) {
 					defer wg.Done()
 					out := filepath.Join(*scratch, fmt.Sprintf("w-%s-%s-%d-%d.json", *prop, ph.Name, sd, w))
 					a := []string{"worker", "-prop", *prop, "-phase", ph.Name, "-seed", fmt.Sprint(sd), "-runs", fmt.Sprint(count),
-						"-worker", fmt.Sprint(w), "-workers", fmt.Sprint(*workers), "-out", out, "-variant", variant}
+						"-worker", fmt.Sprint(w), "-workers", fmt.Sprint(*workers), "-out", out, "-variant", variant, "-tier", *tier}
 					if n := nsites[variant]; n != "" {
 						a = append(a, "-nsites", n)
 					}
@@ -277,7 +277,7 @@ func driverMain(args []string) {
 		code, rout := runReplay(bin, raw, rl, extra)
 		if code != 1 {
 			for _, depth := range []int{8, 64, 1 << 30} {
-				pre, err := buildPrelude(bin, f, depth, *workers, extra)
+				pre, err := buildPrelude(bin, f, depth, *workers, append([]string{"-tier", *tier}, extra...))
 				if err != nil {
 					die("rebuilding history: %v", err)
 				}
